@@ -1,4 +1,5 @@
 import Hive.Proofs.OMapPtr
+import Hive.Proofs.OMapSeq
 import Hive.Model.OMapDict
 /-!
 # The dictionary's shrinking is invisible (C11)
@@ -24,6 +25,30 @@ theorem shouldShrink_zero (n : Nat) : shouldShrink SOpts.default 0 n = false := 
   cases n with
   | zero => rfl
   | succ m => simp [shouldShrink, SOpts.default]
+
+/-! ## little-endian element codecs of every width -/
+
+theorem length_encLE (w n : Nat) : (encLE w n).length = w := by
+  induction w generalizing n with
+  | zero => rfl
+  | succ w ih => simp [encLE, ih]
+
+theorem codec_LE (w : Nat) : Codec (· < 256 ^ w) (encLE w) (decLE w) := by
+  induction w with
+  | zero =>
+    intro x hx rest
+    have : x = 0 := by simpa using hx
+    subst this; rfl
+  | succ w ih =>
+    intro x hx rest
+    have hx' : x / 256 < 256 ^ w := by
+      rw [Nat.pow_succ] at hx
+      exact Nat.div_lt_of_lt_mul (by rw [Nat.mul_comm]; exact hx)
+    have h := ih (x / 256) hx' rest
+    simp only [encLE, List.cons_append, decLE, h, length_encLE, List.length_cons, UInt8.toNat_ofNat']
+    congr 1
+    simp only [Prod.mk.injEq, and_true]
+    omega
 
 def isDel : MOp → Bool
   | .del _ => true
